@@ -47,7 +47,7 @@ func init() {
 	}
 	registry["C18"] = &propCfg{
 		Engine: pull.Engine{}, EngineName: "pull", Level: "exploration",
-		QuickRuns: 500000, ThoroughRuns: 10000000, QuickCapS: 60, ThoroughCapS: 900,
+		QuickRuns: 400000, ThoroughRuns: 10000000, QuickCapS: 60, ThoroughCapS: 900,
 		Rule: "one run = one stream of k in [0,6] top-level values from the independent writers, read through 3-6 decoder/reader plans (NewBytesDecoder, or NewDecoder with buffer size from {1,2,3,7,16,64,4096}, seeded short-read sizes, EOF with or after the data, optional truncation inside a value); evaluations = decoder plans executed; distinct by (stream bytes, constructor, buffer size, read plan, eof mode); every plan is non-trivial (k+1 Next calls against a scheduled reader); reader plans include empty reads (0, nil), concrete reader types, and readers that receive the stream only after the decoder was constructed; 1 run in 1500 is a stream around one extreme shape",
 		Components: map[string][]string{
 			"real": {"json.Decoder", "ubjson.Decoder", "cborl.Decoder", "the three push parsers (per-value reference)"},
